@@ -474,8 +474,11 @@ impl Builder {
                     };
                     res.content.insert(media_type, media_schema);
                 }
-                res.headers = self.content_headers(content);
-                res.description = content.desc.clone().unwrap_or_else(|| "".to_owned());
+                // Several contents can share a status: keep the headers and description of all of them.
+                res.headers.extend(self.content_headers(content));
+                if let Some(desc) = content.desc.as_ref() {
+                    res.description = desc.clone();
+                }
             } else {
                 unreachable!();
             }
